@@ -190,7 +190,9 @@ SubV(v, f) ==
              ELSE (* a bits inside a struct: the container integer read in the field's byte order *)
                   IF st.ok /\ 8 * Len(st.u) = f.bitsize THEN BitSt(UOfBytes(st.u, f.order), f.bitsize)
                   ELSE NullSt
-  IN [t |-> f.type, ps |-> ps, st |-> st2]
+  IN (* Named modelling decision (documentation silent): a sub-view one of whose arguments cannot be
+        computed has no storage at all -- the generated accessor returns a null view. *)
+     [t |-> f.type, ps |-> ps, st |-> IF AllK(ps) THEN st2 ELSE NullSt]
 
 FComplete(v, f) ==
   CASE f.kind = "scalar" -> ScalarRaw(Stor(v, f), f.w, ScalarInfo(v, f)).ok
@@ -260,6 +262,121 @@ VOk(v) ==
         LET f == TypeOf(v).fields[i] h == Has(v, f) IN h.k /\ (h.v => FOk(v, f))
   /\ ReqHolds(v, TypeOf(v).requires, Unknown)
 
+(* top-level view of type t with parameter values ps (plain integers) over the byte string buf *)
+TopView(t, ps, buf) == [t |-> t, ps |-> [i \in 1..Len(ps) |-> Known(ps[i])], st |-> ByteSt(buf)]
+
+---------------------------------------------------------------------------
+(* Writes (C03).  A *target* is a path to a physical scalar, possibly through aliases, anonymous bits
+   and nested structures, or a virtual field of the form y+c, c+y, y-c, c-y (f.xform). *)
+
+NoLoc == [ok |-> FALSE, inbits |-> FALSE, byteOff |-> 0, nbytes |-> 0, order |-> "LE", bitOff |-> 0, w |-> 0]
+Loc0 == [NoLoc EXCEPT !.ok = TRUE]
+
+RECURSIVE Locate(_, _, _)
+(* absolute position, in the top-level buffer, of the scalar designated by path (from view v) *)
+Locate(v, path, acc) ==
+  LET f == FieldNamed(v.t, path[1]) IN
+  IF f.kind = "virt" THEN (IF f.alias # <<>> THEN Locate(v, f.alias \o Tail(path), acc)
+                           ELSE IF f.xform # <<>> THEN Locate(v, f.xform[1].dest \o Tail(path), acc) ELSE NoLoc)
+  ELSE LET h == Has(v, f)
+           s == Eval(v, f.start, Unknown)
+           z == Eval(v, f.size, Unknown)
+       IN IF ~(h.k /\ h.v /\ s.k /\ z.k /\ s.v >= 0 /\ z.v >= 0) THEN NoLoc
+          ELSE IF Unit(v) = 8 THEN
+                  LET a2 == [acc EXCEPT !.byteOff = @ + s.v] IN
+                  IF Len(path) = 1 THEN [a2 EXCEPT !.nbytes = z.v, !.order = f.order, !.w = 8 * z.v]
+                  ELSE IF f.kind # "sub" THEN NoLoc
+                  ELSE IF Prog.types[f.type].unit = 1
+                       THEN Locate(SubV(v, f), Tail(path), [a2 EXCEPT !.inbits = TRUE, !.nbytes = z.v, !.order = f.order, !.bitOff = 0])
+                       ELSE Locate(SubV(v, f), Tail(path), a2)
+               ELSE LET a2 == [acc EXCEPT !.bitOff = @ + s.v] IN
+                  IF Len(path) = 1 THEN [a2 EXCEPT !.w = z.v]
+                  ELSE IF f.kind # "sub" THEN NoLoc ELSE Locate(SubV(v, f), Tail(path), a2)
+
+(* the buffer after storing raw content `raw` at location loc *)
+Splice(buf, loc, raw) ==
+  LET old == SubSeq(buf, loc.byteOff + 1, loc.byteOff + loc.nbytes)
+      u == UOfBytes(old, loc.order)
+      u2 == IF loc.inbits THEN u - BitField(u, loc.bitOff, loc.w) * (2 ^ loc.bitOff) + raw * (2 ^ loc.bitOff) ELSE raw
+      new == BytesOfU(u2, loc.nbytes, loc.order)
+  IN SubSeq(buf, 1, loc.byteOff) \o new \o SubSeq(buf, loc.byteOff + loc.nbytes + 1, Len(buf))
+
+RECURSIVE DestOf(_, _, _)
+(* the physical scalar a write to `path` finally lands on, and the value stored there:
+   [ok, pv (view containing it), f (its field), path (alias-free path from v), x] *)
+DestOf(v, path, x) ==
+  LET pv == PathView(v, path)
+      f == PathField(v, path)
+  IN IF f.kind = "scalar" THEN [ok |-> TRUE, v |-> pv, f |-> f, x |-> x, reqok |-> TRUE, path |-> path]
+     ELSE IF f.kind = "virt" /\ f.alias # <<>> THEN DestOf(pv, f.alias, x)
+     ELSE IF f.kind = "virt" /\ f.xform # <<>> THEN
+          LET t == f.xform[1]
+              y == CASE t.op = "y+c" -> x - t.c
+                     [] t.op = "y-c" -> x + t.c
+                     [] t.op = "c-y" -> t.c - x
+              d == DestOf(pv, t.dest, y)
+          IN [d EXCEPT !.reqok = d.reqok /\ ReqHolds(pv, f.requires, Known(x))]
+     ELSE [ok |-> FALSE, v |-> pv, f |-> f, x |-> x, reqok |-> FALSE, path |-> path]
+
+(* CouldWriteValue: representable in the field and satisfying every [requires] on the way *)
+CouldWrite(v, path, x) ==
+  LET d == DestOf(v, path, x) IN
+  d.ok /\ d.reqok /\ Representable(d.f.st, d.x, d.f.w) /\ ReqHolds(d.v, d.f.requires, Known(d.x))
+
+(* TryToWrite: additionally the field's bytes are present *)
+WriteResult(t, ps, buf, path, x) ==
+  LET v == TopView(t, ps, buf)
+      d == DestOf(v, path, x)
+      could == CouldWrite(v, path, x)
+      tried == could /\ FComplete(d.v, d.f)
+      loc == Locate(v, path, Loc0)
+  IN [could |-> could, tried |-> tried,
+      buf |-> IF tried /\ loc.ok THEN Splice(buf, loc, Encode(d.f.st, d.x, d.f.w)) ELSE buf]
+
+(* candidate values for a write: the edges of the representable range, their outside neighbours, small
+   values, and the edges of every constant the field's [requires] mentions *)
+WriteCandidates(st, w) ==
+  LET lo == IF st \in {"Int", "EnumS"} THEN -(2 ^ (w - 1)) ELSE 0
+      hi == CASE st \in {"Int", "EnumS"} -> 2 ^ (w - 1) - 1
+              [] st = "Bcd" -> BcdMax(w)
+              [] st = "Flag" -> 1
+              [] OTHER -> 2 ^ w - 1
+  IN {lo - 1, lo, lo + 1, -1, 0, 1, 2, 9, 10, hi \div 2, hi - 1, hi, hi + 1}
+
+---------------------------------------------------------------------------
+(* Logical equality and copying (C20) *)
+
+RECURSIVE VEquals(_, _), FEquals(_, _, _)
+
+(* both views Ok: same presence for every physical field, and present fields read equal *)
+FEquals(a, b, f) ==
+  CASE f.kind = "scalar" -> FVal(a, f) = FVal(b, f)
+    [] f.kind = "sub" -> VEquals(SubV(a, f), SubV(b, f))
+    [] f.kind = "array" ->
+         /\ DeclCount(a, f) = DeclCount(b, f)
+         /\ \A i \in 0..(DeclCount(a, f) - 1) :
+              IF f.elem.kind = "scalar" THEN ElemVal(a, f, i) = ElemVal(b, f, i)
+              ELSE VEquals(ElemV(a, f, i), ElemV(b, f, i))
+
+VEquals(a, b) ==
+  \A i \in 1..Len(TypeOf(a).fields) :
+     LET f == TypeOf(a).fields[i] IN
+     f.kind = "virt" \/
+       (LET ha == Has(a, f) hb == Has(b, f) IN ha.k /\ hb.k /\ ha.v = hb.v /\ (ha.v => FEquals(a, b, f)))
+
+(* Two views of one struct type looking at windows [o, o+l) of one allocation `mem`. *)
+Window(mem, w) == SubSeq(mem, w.o + 1, w.o + w.l)
+
+CopyEnabled(t, ps, mem, dst, src) ==
+  LET sv == TopView(t, ps, Window(mem, src)) IN
+  VOk(sv) /\ dst.l >= VSize(sv).v
+
+(* memmove semantics: the destination's first Size(src) bytes become the ORIGINAL source bytes *)
+CopyResult(t, ps, mem, dst, src) ==
+  IF ~CopyEnabled(t, ps, mem, dst, src) THEN mem
+  ELSE LET n == VSize(TopView(t, ps, Window(mem, src))).v IN
+       [j \in 1..Len(mem) |-> IF j > dst.o /\ j <= dst.o + n THEN mem[src.o + (j - dst.o)] ELSE mem[j]]
+
 ---------------------------------------------------------------------------
 (* Observation vector: what a client can learn through the checked API, flattened to a sequence
    of [k: key string, t: tag, v: integer].  The C++ driver prints the same sequence. *)
@@ -309,8 +426,6 @@ ObsView(v, pfx) ==
   (IF s.k THEN <<E(pfx, "size", s.v)>> ELSE <<>>) \o
   ObsFields(v, pfx, 1)
 
-(* top-level view of type t with parameter values ps (plain integers) over the byte string buf *)
-TopView(t, ps, buf) == [t |-> t, ps |-> [i \in 1..Len(ps) |-> Known(ps[i])], st |-> ByteSt(buf)]
 
 Obs(t, ps, buf) == ObsView(TopView(t, ps, buf), "")
 
